@@ -8,6 +8,12 @@ NOTE = ("Trusted: go/types + go/ssa (x/tools v0.29.0), VTA call-graph soundness 
         "one-DB-per-transaction lock identity. The check decides the named structural clauses (necessary conditions), not the whole behaviour; see DESIGN.md §4 for what is not decided.")
 
 CLAIMED = {
+ "C02": ("reader registration / private meta copy / mapping pin established atomically under metalock and released on every exit (must/may locksets), remap and unmap only under the exclusive mmaplock, mapping-description fields written only by map/unmap, copy-on-write targets never derive from the mapping, meta write and pending-page release inside the metalock critical section", "4 C02"),
+ "C03": ("writer lock taken only in beginRWTx and released on every exit of Commit/Rollback/rollback for an open write transaction (interprocedural locksets specialised per transaction kind), managed-transaction discipline of Update/View, ownership of DB.rwtx, acyclic lock order rwlock<metalock<mmaplock<statlock with batchMu/statlock as leaves, guarded-by table for DB.stats/DB.batch/lifecycle fields, nothing can fail after the meta write and handlers run after close", "4 C03"),
+ "C09": ("free-set entry chain (VTA+CHA), backend agreement (storage role only on the backends, policy on *shared, newFreelist total, Allocate bookkeeping), 0xFFFF count convention tabulated on writer/reader/estimator, Free's guards, Init re-assigns every storage field of its backend", "4 C09"),
+ "C10": ("release step at every writer begin under metalock, every exit of a read transaction reaches RemoveReadonlyTXID, same registration key, ReleasePendingPages tabulated for 0/1/2 readers, order-dependent reads of the reader list preceded by a sort, counts published before the writer lock is released", "4 C10"),
+ "C11": ("checksum covers every byte before it on all gc architectures, Validate truth table (8 rows), validate-before-use in page-size probing and Open, decision tables of db.mmap / db.meta() / getPageSize, every rejecting exit of Open closes and returns an error", "4 C11"),
+ "C12": ("version-2 layout table of the 5 mapped structs on all gc architectures, format constants, checksum algorithm and coverage, writer/reader field pairing, 0xFFFF convention, initial 4-page layout evaluated from init, checksum-after-mutation", "4 C12"),
  "C06": ("write offsets derive only from ids of pages in tx.pages (filled only by tx.allocate from db.allocate: freelist.Allocate or the high-water mark), free-set entry chain (Free makes pages pending only; mergeSpans/Init only from the release / reload paths) under VTA and CHA, frees and rollbacks under the writer's own txid, free-before-allocate in spill, meta slot, file-writer allow-list", "4 C06"),
  "C08": ("every error exit of Commit passes the physical rollback (directly or through commitFreelist's summary), shape of rollback (freelist.Rollback, reload from the committed state chosen by hasSyncedFreelist, close), db.allocate has no error exit after an effect and raises the size-limit error first, no I/O error dropped, no rollback after the meta write was issued (one known finding, demonstrated at runtime in findings/F5)", "4 C08"),
  "C17": ("lock request per GOOS tabulated over exclusive/outcome (exclusive iff read-write, non-blocking, retry until timeout), lock-before-content and flag selection in Open, read-only refuses writers before any state change and never reaches a file writer, read-only mapping protection constants on every GOOS, close always closes the descriptor and Close takes all three locks, CLI inspection commands open ReadOnly", "4 C17"),
